@@ -20,7 +20,8 @@ contract("SqlCursor.execute", abstract=True, params=["self", "sql", "parameters"
 contract("SqlConn.commit", abstract=True, params=["self"], props=["C10", "C11"], trusted="sqlite3 (external): atomic, durable commit",
          types={"self": "Ref[SqlConn]"},
          ensures=["self.ghost_pending == 0", "self.ghost_commits == old(self.ghost_commits) + 1"],
-         raises={"OperationalError": []}, modifies=["self.ghost_pending", "self.ghost_commits"])
+         raises={"OperationalError": ["self.ghost_pending == old(self.ghost_pending)", "self.ghost_commits == old(self.ghost_commits)"]},
+         modifies=["self.ghost_pending", "self.ghost_commits"])
 # the JSON document written for an individual is a snapshot of its current data (to_dict + json.dumps are checked at run time:
 # bounded round-trip scenarios of C10)
 contract("Individual.to_dict", abstract=True, params=["self"], props=["C10", "C11"],
@@ -34,7 +35,7 @@ contract("lib:json.dumps", abstract=True, params=["obj"], props=["C10", "C11"], 
 contract("artap.datastore:SqliteDataStore.sync_individual", props=["C10", "C11"],
          types={"individual": "Ref[Individual]"}, locals={"conn": "Ref[SqlConn]", "c": "Ref[SqlCursor]"},
          ghost_results={"gconn": "Ref[SqlConn]"},
-         requires=["valid(individual)", "self.thread_safe", "implies(not is_none(self._conn), valid(self._conn) and valid(self._conn.ghost_ids))"],
+         requires=["valid(individual)", "implies(not is_none(self._conn), valid(self._conn) and valid(self._conn.ghost_ids))"],
          ensures=[
              # write modes: when the call returns, the LAST statement of some connection is the upsert of this individual's current
              # document and it has been committed (nothing pending): synchronised means durable
@@ -49,7 +50,7 @@ contract("artap.datastore:SqliteDataStore.sync_individual", props=["C10", "C11"]
 contract("artap.datastore:SqliteDataStore.sync_all", props=["C10"],
          types={}, locals={"conn": "Ref[SqlConn]", "c": "Ref[SqlCursor]"},
          ghost_results={"gconn": "Ref[SqlConn]"},
-         requires=["valid(self.problem)", "valid(self.problem.individuals)", "self.thread_safe",
+         requires=["valid(self.problem)", "valid(self.problem.individuals)",
                    "implies(not is_none(self._conn), valid(self._conn) and valid(self._conn.ghost_ids))",
                    "forall(lambda i: valid(self.problem.individuals[i]), 0, len(self.problem.individuals))"],
          ensures=[
@@ -104,8 +105,9 @@ contract("lib:sqlite3.connect", abstract=True, params=["database", "isolation_le
          allocates=True)
 contract("SqlCursor.execute/1", abstract=True, params=["self", "sql"], props=["C11"], trusted="sqlite3 (external)",
          types={"self": "Ref[SqlCursor]", "sql": "Str"},
+         # (the one-argument form is only used for PRAGMA statements, which take effect at once and are not part of a transaction)
          ensures=["self.conn.ghost_journal_off == (old(self.conn.ghost_journal_off) or sql == 'PRAGMA journal_mode = OFF')",
-                  "self.conn.ghost_pending == old(self.conn.ghost_pending) + 1"],
+                  "self.conn.ghost_pending == old(self.conn.ghost_pending)"],
          raises={"OperationalError": ["self.conn.ghost_journal_off == old(self.conn.ghost_journal_off)",
                                      "self.conn.ghost_pending == old(self.conn.ghost_pending)"]},
          modifies=["self.conn.ghost_journal_off", "self.conn.ghost_pending"])
@@ -116,6 +118,13 @@ contract("artap.datastore:SqliteDataStore.conn", props=["C11"],
                   # default (thread-safe) mode: a fresh connection on which the journal was not switched off
                   "implies(self.thread_safe, fresh(result) and not result.ghost_journal_off)",
                   "implies(self.thread_safe, is_none(self._conn) == old(is_none(self._conn)) and "
-                  "implies(not is_none(self._conn), self._conn is old(self._conn)))"],
+                  "implies(not is_none(self._conn), self._conn is old(self._conn)))",
+                  # cached (not thread-safe) mode: the one connection of the store; a new one has nothing pending, an existing one
+                  # is handed out as it is
+                  "implies(not self.thread_safe, not is_none(self._conn) and result is self._conn)",
+                  "implies(not self.thread_safe and old(is_none(self._conn)), fresh(result) and result.ghost_pending == 0)",
+                  "implies(not self.thread_safe and old(not is_none(self._conn)), result is old(self._conn) and "
+                  "result.ghost_pending == old(self._conn.ghost_pending))",
+                  "implies(self.thread_safe, result.ghost_pending == 0)"],
          modifies=["self._conn", "SqlConn.ghost_journal_off", "SqlConn.ghost_pending", "SqlConn.ghost_commits"], allocates=True,
          notes="sqlite3.connect is assumed not to raise here (if it did, the real code would fail with UnboundLocalError at `return conn`)")
